@@ -197,7 +197,8 @@ func PuttyPPK(info Info, data []byte) (Info, error) {
 	}
 	info.Attributes = puttyPublicKeyAttributes(pub)
 	info.Attributes = append(info.Attributes, Attribute{"Encryption", string(k.Encryption)})
-	if k.Encryption != ppk.NoEncryption {
+	// version 2 files derive the cipher key with SHA-1 and store no KDF parameters
+	if k.Encryption != ppk.NoEncryption && k.KeyDerivation != "" {
 		info.Attributes = append(info.Attributes,
 			Attribute{"KDF", fmt.Sprintf("%s (%d passes, %d KiB, parallelism: %d)",
 				k.KeyDerivation, k.Argon2Passes, k.Argon2Memory, k.Argon2Parallelism)})
